@@ -494,6 +494,7 @@ func main() {
 	files = append(files, genDecodeShapes(byDir)...)
 	files = append(files, genPathShape(byDir)...)
 	files = append(files, genSliceShape(byDir)...)
+	files = append(files, genFieldShape(byDir)...)
 	files = append(files, genUtilShape(byDir)...)
 	files = append(files, genVmShape(repo, byDir)...)
 	changed := []string{}
